@@ -935,19 +935,59 @@ def _mros(repo: Path):
 # ---- update_conclusion / _reset_evaluation_state_ : templates up to renaming of locals
 
 class _Alpha(ast.NodeTransformer):
+    """rename locals to v0, v1, … in order of first binding; lambda parameters and comprehension variables are scopes of
+    their own (a name reused there is not the outer name)"""
+
     def __init__(self, keep):
-        self.keep, self.map = set(keep), {}
+        self.keep, self.map, self.n = set(keep), {}, 0
+
+    def fresh(self) -> str:
+        self.n += 1
+        return f"v{self.n - 1}"
 
     def name(self, n: str) -> str:
         if n in self.keep:
             return n
-        return self.map.setdefault(n, f"v{len(self.map)}")
+        if n not in self.map:
+            self.map[n] = self.fresh()
+        return self.map[n]
 
     def visit_Name(self, node):
         return ast.copy_location(ast.Name(id=self.name(node.id), ctx=node.ctx), node)
 
-    def visit_arg(self, node):
-        return ast.copy_location(ast.arg(arg=self.name(node.arg), annotation=None), node)
+    def visit_Lambda(self, node):
+        saved = dict(self.map)
+        for a in node.args.args:
+            self.map[a.arg] = self.fresh()
+        out = ast.Lambda(args=ast.arguments(posonlyargs=[], args=[ast.arg(arg=self.map[a.arg]) for a in node.args.args],
+                                            kwonlyargs=[], kw_defaults=[], defaults=[]), body=self.visit(node.body))
+        self.map = saved
+        return ast.copy_location(out, node)
+
+    def _comp(self, node, fields):
+        saved = dict(self.map)
+        gens = []
+        for g in node.generators:
+            it = self.visit(g.iter)
+            for t in ast.walk(g.target):
+                if isinstance(t, ast.Name):
+                    self.map[t.id] = self.fresh()
+            gens.append(ast.comprehension(target=self.visit(g.target), iter=it, ifs=[self.visit(i) for i in g.ifs], is_async=0))
+        kw = {f: self.visit(getattr(node, f)) for f in fields}
+        self.map = saved
+        return ast.copy_location(type(node)(generators=gens, **kw), node)
+
+    def visit_DictComp(self, node):
+        return self._comp(node, ("key", "value"))
+
+    def visit_ListComp(self, node):
+        return self._comp(node, ("elt",))
+
+    def visit_SetComp(self, node):
+        return self._comp(node, ("elt",))
+
+    def visit_GeneratorExp(self, node):
+        return self._comp(node, ("elt",))
 
 
 GLOBALS = {"self", "isinstance", "frozenset", "ConclusionSelector", "HashedIterable", "Literal", "SeenSet", "super", "set", "dict"}
@@ -972,27 +1012,31 @@ def dedup_spec(cs: ast.ClassDef) -> str:
     if body and body[0] == f"if isinstance(self._parent_, ConclusionSelector):\n    self._conclusion_.update({con})\n    return":
         spec["innerHandsOn"] = True
         body = body[1:]
-    # the bindings of the conclusions' non-literal variables
-    want_vars = [
-        "v0 = HashedIterable()",
-        f"for v1 in {con}:\n    v2 = v1._unique_variables_.filter(lambda v3: not isinstance(v3.value, Literal))\n    v0.update(v2)",
-        f"v4 = {{v5: v3 for v5, v3 in {out}.bindings.items() if v5 in v0}}",
-    ]
-    want_vars_inline = [
-        "v0 = HashedIterable()",
-        f"for v1 in {con}:\n    v0.update(v1._unique_variables_.filter(lambda v2: not isinstance(v2.value, Literal)))",
-        f"v3 = {{v4: v2 for v4, v2 in {out}.bindings.items() if v4 in v0}}",
-    ]
-    if body[:3] == want_vars:
-        ro, nxt = "v4", 6
-    elif body[:3] == want_vars_inline:
-        ro, nxt = "v3", 5
-    else:
+    # the bindings of the conclusions' non-literal variables (templates canonicalised the same way)
+    def tmpl(src: str) -> List[str]:
+        return _canon(ast.parse(src).body, ("OUT", "CON"))
+    variants = [tmpl(
+        "rv = HashedIterable()\n"
+        "for c in CON:\n"
+        "    vs = c._unique_variables_.filter(lambda v: not isinstance(v.value, Literal))\n"
+        "    rv.update(vs)\n"
+        "ro = {k: v for k, v in OUT.bindings.items() if k in rv}\n"
+        "mem = 0\n"), tmpl(
+        "rv = HashedIterable()\n"
+        "for c in CON:\n"
+        "    rv.update(c._unique_variables_.filter(lambda v: not isinstance(v.value, Literal)))\n"
+        "ro = {k: v for k, v in OUT.bindings.items() if k in rv}\n"
+        "mem = 0\n")]
+    got3 = [b.replace(out, "OUT").replace(con, "CON") for b in body[:3]]
+    ro = mem = None
+    for v in variants:
+        if got3 == v[:3]:
+            ro, mem = v[2].split(" = ")[0], v[3].split(" = ")[0]
+    if ro is None:
         raise TranslationError("update_conclusion: computation of the key bindings not recognised:\n" + "\n".join(body[:3]))
     body = body[3:]
     if len(body) != 2:
         raise TranslationError("update_conclusion: tail not recognised")
-    mem = f"v{nxt}"
     pre, post = f"{mem} = self.concluded_before.setdefault(", ", SeenSet())"
     if not (body[0].startswith(pre) and body[0].endswith(post)):
         raise TranslationError(f"update_conclusion: memory look-up not recognised: {body[0]}")
@@ -1040,30 +1084,35 @@ def selector_table(repo: Path) -> str:
 TRANSLATED = ["C08_translated_surgery_eq_model", "C08_translated_selectors_eq_model", "C08_end_to_end_translated"]
 
 
-def generate(repo: Path) -> str:
+def generate_parts(repo: Path) -> Tuple[str, Dict[str, str]]:
+    """-> (Lean text, {obligation: why it could not be generated}). A table whose translation is rejected is left out
+    together with the obligations that need it; the other table's equality is still checked."""
     repo = Path(repo)
-    sur = surgery_table(repo)
-    sel = selector_table(repo)
-    return f"""import KrroodVerif.Props.C08Tables
-/-! GENERATED by harness/translate/c08_translate.py from {RULE_PATH}, {SEL_PATH}, {SYM_PATH} -/
-namespace KrroodVerif.Rdr.Translated
-open KrroodVerif.Rdr
-
-def surgery : SurgeryTable :=
-  {sur}
-
-def selectors : SelectorTable :=
-  {sel}
-
-end KrroodVerif.Rdr.Translated
-namespace KrroodVerif.Rdr
-
-/-- the surgery `rule.py` performs now is the one the model's builder transcribes -/
-theorem C08_translated_surgery_eq_model : Translated.surgery = Rdr.surgery := by decide
-
-/-- the decision rows of `conclusion_selector.py` now are the ones the model's evaluator transcribes -/
-theorem C08_translated_selectors_eq_model : Translated.selectors = Rdr.selectors := by decide
-
+    errors: Dict[str, str] = {}
+    tabs: Dict[str, Optional[str]] = {}
+    for key, fn, needs in (("surgery", surgery_table, TRANSLATED[0]), ("selectors", selector_table, TRANSLATED[1])):
+        try:
+            tabs[key] = fn(repo)
+        except (TranslationError, SyntaxError, OSError, RecursionError, KeyError, IndexError, AttributeError, TypeError, ValueError) as e:
+            tabs[key] = None
+            errors[needs] = f"translator rejected the source ({key}): {type(e).__name__}: {e}"
+    if errors:
+        errors[TRANSLATED[2]] = "needs both tables: " + " | ".join(errors.values())
+    out = [f"import KrroodVerif.Props.C08Tables\n/-! GENERATED by harness/translate/c08_translate.py from {RULE_PATH}, {SEL_PATH}, {SYM_PATH} -/\n"
+           "namespace KrroodVerif.Rdr.Translated\nopen KrroodVerif.Rdr\n"]
+    if tabs["surgery"] is not None:
+        out.append(f"\ndef surgery : SurgeryTable :=\n  {tabs['surgery']}\n")
+    if tabs["selectors"] is not None:
+        out.append(f"\ndef selectors : SelectorTable :=\n  {tabs['selectors']}\n")
+    out.append("\nend KrroodVerif.Rdr.Translated\nnamespace KrroodVerif.Rdr\n")
+    if tabs["surgery"] is not None:
+        out.append("\n/-- the surgery `rule.py` performs now is the one the model's builder transcribes -/\n"
+                   "theorem C08_translated_surgery_eq_model : Translated.surgery = Rdr.surgery := by decide\n")
+    if tabs["selectors"] is not None:
+        out.append("\n/-- the decision rows of `conclusion_selector.py` now are the ones the model's evaluator transcribes -/\n"
+                   "theorem C08_translated_selectors_eq_model : Translated.selectors = Rdr.selectors := by decide\n")
+    if not errors:
+        out.append("""
 /-- `C08_end_to_end` for the tables regenerated from the code: builder and evaluator interpreted from them return
 exactly the rows of the specification, for every unambiguous program, every payload and every domain -/
 theorem C08_end_to_end_translated (p : Prog) (pay : Payload) (dom : List Nat) (hu : p.unambiguous = true) :
@@ -1071,9 +1120,16 @@ theorem C08_end_to_end_translated (p : Prog) (pay : Payload) (dom : List Nat) (h
       ∀ c x, (c, x) ∈ evalTopWith Translated.selectors.oneVar pay dom t ↔ (c, x) ∈ spec pay p dom :=
   C08_end_to_end_of_tables Translated.surgery Translated.selectors
     C08_translated_surgery_eq_model C08_translated_selectors_eq_model p pay dom hu
+""")
+    out.append("\nend KrroodVerif.Rdr\n")
+    return "".join(out), errors
 
-end KrroodVerif.Rdr
-"""
+
+def generate(repo: Path) -> str:
+    text, errors = generate_parts(repo)
+    if errors:
+        raise TranslationError(" | ".join(errors.values()))
+    return text
 
 
 if __name__ == "__main__":
